@@ -24,15 +24,18 @@ def value_of(dkind, tag):
     return {"float": tag * 0.5, "integer": tag * 3, "boolean": tag % 2, "text": f"t{tag}", "referenced": tag % 4}[dkind]
 
 
-def np_of(dkind, vals):
+def np_of(dkind, vals, r=None):
+    """The array a caller hands over; with r, in any number type that holds the values exactly (narrow ones included)."""
     if dkind == "float":
-        return np.array([np.nan if v == "nan" else v for v in vals], dtype=float)
+        return np.array([np.nan if v == "nan" else v for v in vals], dtype=float if r is None or r.random() < 0.7 else "float32")
     if dkind == "integer":
-        return np.array(vals, dtype="int32")
+        fits = ["int32", "int64"] + (["int16"] if all(abs(v) < 32000 for v in vals) else []) + (["int8"] if all(abs(v) < 127 for v in vals) else []) \
+            + (["uint8"] if all(0 <= v < 256 for v in vals) else []) + (["uint16"] if all(0 <= v < 65000 for v in vals) else [])
+        return np.array(vals, dtype="int32" if r is None or r.random() < 0.5 else fits[r.randrange(len(fits))])
     if dkind == "boolean":
         return np.array(vals, dtype=bool)
     if dkind == "referenced":
-        return np.array(vals, dtype="uint32")
+        return np.array(vals, dtype="uint32" if r is None or r.random() < 0.5 else ("uint8", "uint16", "int32", "int64")[r.randrange(4)])
     return np.array(vals, dtype=str)
 
 
@@ -326,7 +329,7 @@ class GeometryScenario(BaseScenario):
             return "ok"
         vals = [value_of(dkind, order[i] if i < n else 999) for i in range(length)]
         ent = self.ent(ws, obj)
-        spec = {"values": np_of(dkind, vals), "association": assoc}
+        spec = {"values": np_of(dkind, vals, r), "association": assoc}
         if dkind in ("boolean", "referenced", "text", "integer"):
             spec["type"] = dkind
         if dkind == "referenced":
@@ -375,7 +378,7 @@ class GeometryScenario(BaseScenario):
         ent = self.ent(ws, obj)
         data = ent.get_data(name)[0]
         try:
-            data.values = np_of(d["dkind"], vals)
+            data.values = np_of(d["dkind"], vals, r)
             raised = None
         except Exception as err:  # pylint: disable=broad-except
             raised = type(err).__name__
